@@ -82,6 +82,7 @@ type hubCase struct {
 }
 
 type liveConn struct {
+	nsels  int
 	epoch  int
 	label  int
 	w      *fakeRW
@@ -121,6 +122,8 @@ type hubRun struct {
 	pmu     sync.Mutex
 	replayed map[int]bool // connections that asked for a replay (their expected count differs)
 	leidChecks []*leidCheck
+	okPubs     int
+	extra      []h.Violation // oracle findings collected while the case runs
 	epoch   int  // restarts so far
 	stopped bool // the current hub has been stopped
 }
@@ -164,6 +167,29 @@ func metricValue(reg *prometheus.Registry, name string) float64 {
 	}
 
 	return -1
+}
+
+// wait: quiescence; then connections whose write failed are let go one at a time, in connection order,
+// round by round (each round = the connections found parked at its start), which is the order in which
+// the model's settle loop ends them. Without this, two connections killed by the same publication would
+// announce their ends in an order chosen by the Go scheduler.
+func (hr *hubRun) wait() {
+	synctest.Wait()
+	for {
+		var batch []*liveConn
+		for _, lc := range hr.conns {
+			if lc.w.failParked() {
+				batch = append(batch, lc)
+			}
+		}
+		if len(batch) == 0 {
+			return
+		}
+		for _, lc := range batch {
+			lc.w.releaseFail()
+			synctest.Wait()
+		}
+	}
 }
 
 // gatedWrite: block while the connection is stalled.
@@ -239,6 +265,48 @@ func canonData(d string) string {
 	return "sub|" + s.ID + "|" + s.Subscriber + "|" + s.Topic + "|" + h.B(s.Active) + "|" + jws.PayloadJSON(s.Payload)
 }
 
+// derefListed: C18's oracle on the implementation alone — one document per (connected subscriber,
+// selector), ids pairwise distinct per (subscriber, selector position), and every listed id, when
+// dereferenced, returns that same subscription.
+func (hr *hubRun) derefListed(op hubOp, w *fakeRW, now time.Time, cs hubCase) {
+	var coll struct {
+		Subscriptions []struct {
+			ID, Subscriber, Topic string
+		} `json:"subscriptions"`
+	}
+	if json.Unmarshal([]byte(w.Body()), &coll) != nil {
+		return
+	}
+	rp := map[string]any{"family": "hub", "case": cs}
+	if op.Topic == "" && !hr.stopped {
+		want := 0
+		for _, lc := range hr.conns {
+			if !lc.done.Load() && lc.epoch == hr.epoch {
+				want += lc.nsels
+			}
+		}
+		if len(coll.Subscriptions) != want {
+			hr.extra = append(hr.extra, h.Violation{Key: "C18:collection-size", What: fmt.Sprintf("the collection lists %d documents; the connected subscribers have %d (subscriber, selector) pairs", len(coll.Subscriptions), want), Replay: rp})
+		}
+	}
+	for _, d := range coll.Subscriptions {
+		if d.Topic == "" {
+			continue
+		}
+		req, _, _ := hr.request(hubOp{Claims: claimsJSON("subscribe", []string{"*"}, ""), Carrier: "header"}, http.MethodGet, d.ID, nil, "", now)
+		rw := newRW()
+		hr.f.hub.ServeHTTP(rw, req)
+		var one struct{ ID, Subscriber, Topic string }
+		json.Unmarshal([]byte(rw.Body()), &one)
+		if rw.Status() != 200 || one.ID != d.ID || one.Subscriber != d.Subscriber || one.Topic != d.Topic {
+			hr.extra = append(hr.extra, h.Violation{Key: "C18:listed-id-does-not-dereference-to-itself",
+				What: fmt.Sprintf("the collection lists {id %q, subscriber %q, topic %q}; GET %q answers %d {id %q, subscriber %q, topic %q}", d.ID, d.Subscriber, d.Topic, d.ID, rw.Status(), one.ID, one.Subscriber, one.Topic), Replay: rp})
+
+			break
+		}
+	}
+}
+
 func (hr *hubRun) obs() string {
 	var cs []string
 	for _, lc := range hr.conns {
@@ -266,7 +334,87 @@ func (hr *hubRun) labelOf(sid string) string {
 	return "?" + sid
 }
 
+// runHubCase runs one history; when it exhibits a violation (or a disagreement) not reported yet, the
+// history is first shrunk — operations are removed greedily while the same violation key (or the same
+// correspondence class) still shows — so that the replay file holds a minimal operation sequence.
 func runHubCase(c *h.Ctx, r *h.Report, o *gen.Oracle, cs hubCase, uuidGen *countingGen) {
+	try := func(cs hubCase) *h.Report {
+		t := h.NewReport(r.Property, r.Family, r.Seed, r.Tier)
+		runHubCaseRaw(c, t, o, cs, uuidGen)
+
+		return t
+	}
+	t := try(cs)
+	r.Evaluations += t.Evaluations
+	if c.Replay != "" || (len(t.Violations) == 0 && len(t.Disagreements) == 0) {
+		for _, v := range t.Violations {
+			r.Violate(v)
+		}
+		for _, d := range t.Disagreements {
+			r.Disagree(d)
+		}
+
+		return
+	}
+	shrink := func(has func(*h.Report) bool) (hubCase, *h.Report) {
+		best, bt := cs, t
+		budget := 200
+		for changed := true; changed && budget > 0; {
+			changed = false
+			for i := len(best.Ops) - 1; i >= 0 && budget > 0; i-- {
+				cand := best
+				cand.Ops = append(append([]hubOp{}, best.Ops[:i]...), best.Ops[i+1:]...)
+				budget--
+				if ct := try(cand); has(ct) {
+					best, bt, changed = cand, ct, true
+				}
+			}
+		}
+		r.CountN("shrink: operations removed from a failing history", len(cs.Ops)-len(best.Ops))
+
+		return best, bt
+	}
+	known := map[string]bool{}
+	for _, v := range r.Violations {
+		known[v.Key] = true
+	}
+	shrunk := 0
+	for _, v := range t.Violations {
+		if known[v.Key] || shrunk >= 3 {
+			r.Violate(v)
+
+			continue
+		}
+		shrunk++
+		key := v.Key
+		_, bt := shrink(func(x *h.Report) bool {
+			for _, w := range x.Violations {
+				if w.Key == key {
+					return true
+				}
+			}
+
+			return false
+		})
+		for _, w := range bt.Violations {
+			if w.Key == key {
+				r.Violate(w)
+			}
+		}
+	}
+	for _, d := range t.Disagreements {
+		if len(r.Disagreements) >= 3 {
+			r.Disagree(d)
+
+			continue
+		}
+		class := d.Class
+		_, bt := shrink(func(x *h.Report) bool { return len(x.Disagreements) > 0 && x.Disagreements[0].Class == class })
+		r.Disagree(bt.Disagreements[0])
+	}
+}
+
+func runHubCaseRaw(c *h.Ctx, r *h.Report, o *gen.Oracle, cs hubCase, uuidGen *countingGen) {
 	var lines, impl []string
 	violations := []h.Violation{}
 	dir := ""
@@ -345,10 +493,13 @@ func runHubCase(c *h.Ctx, r *h.Report, o *gen.Oracle, cs hubCase, uuidGen *count
 
 						return w.Status()
 					}()
-					synctest.Wait()
+					hr.wait()
 					body := w.Body()
 					if status == 500 {
 						body = ""
+					}
+					if status == 200 {
+						hr.okPubs++
 					}
 					emit(h.Line(append(append([]string{"hub.pub"}, a.wire(true)...), "1", h.HexList(form["topic"]), h.Hex(form.Get("retry")),
 						h.B(len(form["private"]) != 0), h.Hex(form.Get("data")), h.Hex(form.Get("id")), h.Hex(form.Get("type")))...),
@@ -369,13 +520,14 @@ func runHubCase(c *h.Ctx, r *h.Report, o *gen.Oracle, cs hubCase, uuidGen *count
 					req.Header.Set("Last-Event-ID", op.LeidH)
 				}
 				addTok(tok)
-				lc := &liveConn{label: op.Label, w: newRW(), cancel: cancel, epoch: hr.epoch}
+				lc := &liveConn{label: op.Label, w: newRW(), cancel: cancel, epoch: hr.epoch, nsels: len(op.Topics)}
 				if hr.replayed == nil {
 					hr.replayed = map[int]bool{}
 				}
 				hr.replayed[op.Label] = op.LeidH != "" || op.LeidQ != "" || op.LeidL != nil
 				lc.w.onWrite = nil
 				lc.w.gateFn = lc.gateFn
+				lc.w.holdFail = true
 				hr.conns = append(hr.conns, lc)
 				go func() {
 					defer lc.done.Store(true)
@@ -389,7 +541,7 @@ func runHubCase(c *h.Ctx, r *h.Report, o *gen.Oracle, cs hubCase, uuidGen *count
 						_, storedBefore = mercure.VerifBoltKeys(bt)
 					}()
 				}
-				synctest.Wait()
+				hr.wait()
 				status := lc.w.Status()
 				body := ""
 				leid := "~"
@@ -440,7 +592,7 @@ func runHubCase(c *h.Ctx, r *h.Report, o *gen.Oracle, cs hubCase, uuidGen *count
 						lc.cancel()
 					}
 				}
-				synctest.Wait()
+				hr.wait()
 				emit(h.Line("hub.disc", h.Itoa(op.Label)), "ok")
 			case "stall", "unstall":
 				for _, lc := range hr.conns {
@@ -455,7 +607,7 @@ func runHubCase(c *h.Ctx, r *h.Report, o *gen.Oracle, cs hubCase, uuidGen *count
 						lc.mu.Unlock()
 					}
 				}
-				synctest.Wait()
+				hr.wait()
 				emit(h.Line("hub.stall", h.Itoa(op.Label), h.B(op.Op == "stall")), "ok")
 			case "failnext":
 				for _, lc := range hr.conns {
@@ -469,11 +621,11 @@ func runHubCase(c *h.Ctx, r *h.Report, o *gen.Oracle, cs hubCase, uuidGen *count
 			case "close":
 				hr.stopped = true
 				hr.stop()
-				synctest.Wait()
+				hr.wait()
 				emit("hub.close", "ok")
 			case "restart":
 				hr.stop()
-				synctest.Wait()
+				hr.wait()
 				hr.open()
 				hr.epoch++
 				hr.stopped = false
@@ -503,6 +655,9 @@ func runHubCase(c *h.Ctx, r *h.Report, o *gen.Oracle, cs hubCase, uuidGen *count
 				w := newRW()
 				hr.f.hub.ServeHTTP(w, req)
 				got := showAPIResp(w)
+				if op.Op == "api.list" && w.Status() == 200 {
+					hr.derefListed(op, w, now, cs)
+				}
 				if op.Op == "api.list" {
 					emit(h.Line(append(append([]string{"hub.api.list"}, a.wire(false)...), h.Hex(req.URL.RequestURI()), h.Hex(op.Topic), h.Hex(op.INM))...), got)
 				} else {
@@ -511,7 +666,7 @@ func runHubCase(c *h.Ctx, r *h.Report, o *gen.Oracle, cs hubCase, uuidGen *count
 			}
 			emit("hub.obs", hr.obs())
 		}
-		violations = hubOracles(hr, cs, o)
+		violations = append(hubOracles(hr, cs, o), hr.extra...)
 		// end: release everything so the bubble can finish
 		for _, lc := range hr.conns {
 			lc.mu.Lock()
@@ -522,9 +677,9 @@ func runHubCase(c *h.Ctx, r *h.Report, o *gen.Oracle, cs hubCase, uuidGen *count
 			lc.mu.Unlock()
 			lc.cancel()
 		}
-		synctest.Wait()
+		hr.wait()
 		hr.stop()
-		synctest.Wait()
+		hr.wait()
 		for _, p := range hr.panics {
 			violations = append(violations, h.Violation{Key: "C14:panic:" + p, What: "panic in a sequential history: " + p, Replay: map[string]any{"family": "hub", "case": cs}})
 		}
@@ -536,7 +691,8 @@ func runHubCase(c *h.Ctx, r *h.Report, o *gen.Oracle, cs hubCase, uuidGen *count
 		}
 		r.Evaluations++
 		if ans[i] != impl[i] {
-			r.Disagree(h.Disagreement{Class: "hub." + strings.SplitN(lines[i], "\t", 2)[0], Case: cs, Model: clip(ans[i]), Impl: clip(impl[i]), At: i, Ops: clipAll(lines[max(0, i-3) : i+1])})
+			m, g := clipDiff(ans[i], impl[i])
+			r.Disagree(h.Disagreement{Class: "hub." + strings.SplitN(lines[i], "\t", 2)[0], Case: cs, Model: m, Impl: g, At: i, Ops: clipAll(lines[max(0, i-3) : i+1])})
 
 			break
 		}
@@ -552,6 +708,24 @@ func clip(s string) string {
 	}
 
 	return s
+}
+
+// clipDiff keeps a window around the first difference of two long answers.
+func clipDiff(a, b string) (string, string) {
+	if len(a) <= 1500 && len(b) <= 1500 {
+		return a, b
+	}
+	k := 0
+	for k < len(a) && k < len(b) && a[k] == b[k] {
+		k++
+	}
+	win := func(s string) string {
+		lo, hi := max(0, k-700), min(len(s), k+700)
+
+		return fmt.Sprintf("…[%d]%s…", lo, s[lo:hi])
+	}
+
+	return win(a), win(b)
 }
 
 func clipAll(ss []string) []string {
